@@ -64,6 +64,8 @@ def gen_instance(rng):
     n = rng.choice([1, 2, 3, 4, 5, 6, 8, 10, 12, 15, 20, 25, 30, 40, 50, 60])
     if shape in ("chain", "tree", "star", "layered") and n < 2:
         n = 2
+    if shape in ("chain", "tree") and rng.random() < 0.04:
+        n = rng.choice([100, 150, 200])  # long chains: accumulated float error, deep (but admissible) recursion
     order = list(range(n))
     rng.shuffle(order)  # topological order: edges go from earlier to later in `order`
     pos = {v: k for k, v in enumerate(order)}
@@ -122,6 +124,10 @@ def gen_instance(rng):
 
     cons = [(a, b, gap()) for a, b in edges]
     if rng.random() < 0.5:
+        rng.shuffle(cons)  # the order in which the caller lists the constraints is arbitrary
+    if rng.random() < 0.08:
+        d = [rng.choice([0, 7.5, -3])] * n  # every variable wants the same place
+    elif rng.random() < 0.5:
         d = [rng.choice([0, 5, 10]) for _ in range(n)]
     elif rng.random() < 0.5:
         d = [rng.uniform(-100, 100) for _ in range(n)]
@@ -152,7 +158,9 @@ def gen_cyclic(rng):
         cons = [(i, (i + 1) % n, g()) for i in range(n)]
     elif kind == "two-rings":
         k = n // 2
-        cons = [(i, (i + 1) % k, g()) for i in range(k)] + [(k + i, k + (i + 1) % (n - k), g()) for i in range(n - k)] + [(0, k, g())]
+        cons = [(i, (i + 1) % k, g()) for i in range(k)] + [(k + i, k + (i + 1) % (n - k), g()) for i in range(n - k)]
+        if rng.random() < 0.7:
+            cons.append((0, k, g()))  # else: two separate components
     elif kind == "dag+back":
         for b in range(1, n):
             cons.append((rng.randrange(0, b), b, g()))
@@ -288,8 +296,13 @@ def Q_digest(inst):
 
 def solve_direct(ctx, mon, V, inst, stratum, cyclic):
     vs, cs = build(V, inst)
+    again = Q_digest(inst)[0] in "01"  # one instance in eight: solve() is called a second time on the same Solver
     try:
-        V.Solver(vs, cs).solve()
+        sv = V.Solver(vs, cs)
+        sv.solve()
+        if again:
+            sv.solve()
+            ctx.path("solve-called-twice")
     except BudgetExceeded:
         pass
     except RecursionError:
@@ -297,10 +310,11 @@ def solve_direct(ctx, mon, V, inst, stratum, cyclic):
     except Exception:
         pass
     recs = mon.drain()
-    if len(recs) != 1:
+    if len(recs) != (2 if again else 1) and not (again and len(recs) == 1):
         ctx.judge(stratum, INCONCLUSIVE, None, reason="monitor saw %d solve() calls for one direct solve" % len(recs))
         return
-    judge_record(ctx, mon, recs[0], stratum, cyclic, True)
+    for rec in recs:
+        judge_record(ctx, mon, rec, stratum, cyclic, True)
 
 
 def worker(ctx, shard):
